@@ -132,7 +132,7 @@ func firstLine(s string) string {
 }
 
 func apiKind(api string) string {
-	if api == "StopTask" || api == "DeleteTask" {
+	if api == "StopTask" || api == "DeleteTask" || api == "TSDisable" || api == "TSDelete" {
 		return "task"
 	}
 	return "close"
@@ -143,7 +143,7 @@ func emit(t *rt.Trace, sc scen, a *attempt, o *outcome, attemptNo int) {
 	tp := a.topo()
 	// (all keys sort after "ev": verifylib cuts traces at lines that START with {"ev":"Reset")
 	t.Reset(rt.M{"pipe": sc.Pipe, "topo": tp, "stopApi": sc.Stop, "kind": apiKind(sc.Stop), "stall": sc.Stall, "release": sc.Release,
-		"fail": sc.Fail, "n": sc.N, "racing": sc.Racing, "slots": 1000, "try": attemptNo,
+		"fail": sc.Fail, "n": sc.N, "racing": sc.Racing, "slots": 1000, "try": attemptNo, "waiters": sc.Waiters,
 		"stallKind": a.stallKind, "stallNode": a.stallNode})
 	var first, racing []int
 	for _, s := range o.Accepted {
@@ -183,6 +183,27 @@ func emit(t *rt.Trace, sc scen, a *attempt, o *outcome, attemptNo int) {
 	}
 	if o.Returned {
 		t.Event("StopReturn", rt.M{"delivered": deliveredAny(at), "refused": refused, "early": o.EarlyReturn, "err": o.StopErr != ""})
+		if sc.Waiters > 0 {
+			// which error each concurrent caller of ExecutingTask.Wait got (1.. = index of the distinct value)
+			ids := []any{}
+			seen := []string{}
+			back := []any{}
+			for w := 0; w < sc.Waiters; w++ {
+				back = append(back, o.WaiterBack[w])
+				id := 0
+				for i, e := range seen {
+					if e == o.WaiterErr[w] {
+						id = i + 1
+					}
+				}
+				if id == 0 {
+					seen = append(seen, o.WaiterErr[w])
+					id = len(seen)
+				}
+				ids = append(ids, id)
+			}
+			t.Event("Waiters", rt.M{"returned": back, "errIds": ids, "stopErrSame": len(seen) == 1 && seen[0] == o.StopErr})
+		}
 		leaked := o.Leaked
 		if leaked == nil {
 			leaked = []string{}
@@ -197,9 +218,9 @@ func emit(t *rt.Trace, sc scen, a *attempt, o *outcome, attemptNo int) {
 }
 
 type counters struct {
-	attempts, hung, leaks, failed, early, panicked int
-	lossy                                          int
-	bySig                                          map[string]int
+	attempts, hung, leaks, failed, early, panicked, waiterStuck int
+	lossy                                                       int
+	bySig                                                       map[string]int
 }
 
 func lost(sc scen, a *attempt, o *outcome) bool {
@@ -290,7 +311,7 @@ func Run(r *rt.Run) error {
 			return fmt.Errorf("more than 20 process crashes, giving up (last: %s)", sc.key())
 		}
 		crashT.Reset(rt.M{"pipe": sc.Pipe, "stopApi": sc.Stop, "kind": apiKind(sc.Stop), "stall": sc.Stall, "release": sc.Release,
-			"fail": sc.Fail, "n": sc.N, "racing": sc.Racing, "slots": 1000, "try": att, "stallKind": "", "stallNode": "",
+			"fail": sc.Fail, "n": sc.N, "racing": sc.Racing, "slots": 1000, "try": att, "waiters": 0, "stallKind": "", "stallNode": "",
 			"topo": rt.M{"kinds": []any{"pass"}, "edges": []any{rt.M{"from": 0, "to": 1, "f": "all"}}, "outf": []any{"none"},
 				"outs": rt.M{}, "nodes": []any{"?"}}})
 		crashT.Event("StopCall", rt.M{"api": sc.Stop})
@@ -389,6 +410,7 @@ func runChild(r *rt.Run) error {
 		r.Extra["attempts_hung"] = cnt.hung
 		r.Extra["attempts_stop_panicked"] = cnt.panicked
 		r.Extra["attempts_with_leak"] = cnt.leaks
+		r.Extra["waiters_never_returned"] = cnt.waiterStuck
 		r.Extra["attempts_with_loss"] = cnt.lossy
 		r.Extra["attempts_with_node_failure"] = cnt.failed
 		r.Extra["stop_returned_with_gate_closed"] = cnt.early
@@ -396,10 +418,15 @@ func runChild(r *rt.Run) error {
 			r.Extra["leak_signatures"] = strsAny(sigs)
 		}
 		r.Extra["driver_wall_s"] = int(time.Since(t0).Seconds())
-		r.Finish("real stream tasks (influxDBOut buffer 1/3/default, chain, alert with own handler, log, httpPost, kapacitorLoopback, fork, union, join, UDF; one batch task: query node -> influxDBOut with a query in flight) stopped with StopTask/DeleteTask/TaskMaster.Close/Drain+StopTasks while a gate (sink, node start, node after its k-th message) holds the backlog at a chosen place, 5..2400 points in flight (edge capacity 1000), with and without a failing node or a racing writer; each scenario attempted several times (Go select is random); non-trivial = scenario with a held backlog, a failing node or a racing writer, distinct by scenario", false)
+		r.Finish("real stream tasks (influxDBOut buffer 1/3/default, chain, alert with own handler, log, httpPost, kapacitorLoopback, fork, union, join, UDF; one batch task: query node -> influxDBOut with a query in flight) stopped with StopTask/DeleteTask/TaskMaster.Close/Drain+StopTasks (and disable/delete through the HTTP handlers of the real services/task_store) while a gate (sink, node start, node after its k-th message) holds the backlog at a chosen place, 5..2400 points in flight (edge capacity 1000), with and without a failing node, a racing writer, or 1-2 goroutines already blocked in ExecutingTask.Wait(); each scenario attempted several times (Go select is random); non-trivial = scenario with a held backlog, a failing node or a racing writer, distinct by scenario", false)
 	}
 	for si := from; si < len(scens); si++ {
 		sc := scens[si]
+		if cnt.hung >= 13 {
+			// a tree on which stop after stop never returns: the evidence is in, every further hang costs seconds
+			r.Extra["truncated_after_hung_stops"] = cnt.hung
+			break
+		}
 		n := attempts
 		if sc.Pipe == "loopback" && strings.HasPrefix(sc.Stall, "run:") && sc.N > 1000 && apiKind(sc.Stop) == "task" {
 			n = 1 // the known deadlock: costs a few seconds per attempt and leaves a dead TaskMaster behind
@@ -430,6 +457,11 @@ func runChild(r *rt.Run) error {
 			if o.Panicked != "" {
 				cnt.panicked++
 			}
+			for _, b := range o.WaiterBack {
+				if !b && o.Returned {
+					cnt.waiterStuck++
+				}
+			}
 			if len(o.Leaked) > 0 {
 				cnt.leaks++
 				for _, s := range o.Leaked {
@@ -446,13 +478,13 @@ func runChild(r *rt.Run) error {
 				cnt.lossy++
 			}
 			// keep goroutine dumps of the first few anomalies next to the trace (debugging aid)
-			if (o.Hung || len(o.Leaked) > 0) && dumps < 6 {
+			if (o.Hung || len(o.Leaked) > 0 || o.WaiterDump != "") && dumps < 6 {
 				dumps++
 				name := fmt.Sprintf("dump-%d-%s.txt", dumps, strings.NewReplacer("/", "_", ":", "-").Replace(sc.key()))
-				_ = os.WriteFile(filepath.Join(filepath.Dir(r.OutDir), name), []byte(o.HungDump+o.LeakDump), 0o644)
+				_ = os.WriteFile(filepath.Join(filepath.Dir(r.OutDir), name), []byte(o.HungDump+o.LeakDump+o.WaiterDump), 0o644)
 			}
 		}
-		if sc.Stall != "" || sc.Fail != "" || sc.Racing > 0 {
+		if sc.Stall != "" || sc.Fail != "" || sc.Racing > 0 || sc.Waiters > 0 || strings.HasPrefix(sc.Stop, "TS") {
 			t.Distinct(sc.key()) // non-trivial: a backlog is held somewhere, a node fails, or a writer races with the stop
 		}
 	}
@@ -514,6 +546,9 @@ func Probe(r *rt.Run) error {
 	if len(a) > 7 {
 		fmt.Sscan(a[7], &sc.Racing)
 	}
+	if len(a) > 8 {
+		fmt.Sscan(a[8], &sc.Waiters)
+	}
 	t := r.NewTrace("probe")
 	for i := 0; i < att; i++ {
 		t0 := time.Now()
@@ -527,7 +562,7 @@ func Probe(r *rt.Run) error {
 		for k, v := range o.AtReturn {
 			fmt.Printf("   out %s: atReturn=%d %v final=%d dup=%d\n", k, len(v), trunc(ranges(v)), len(o.Final[k]), dupCount(o.Final[k]))
 		}
-		fmt.Printf("   leaked=%v refused=%v errors=%v\n", o.Leaked, o.Refused, o.Errors)
+		fmt.Printf("   leaked=%v refused=%v waitersBack=%v waiterErrs=%q errors=%v\n", o.Leaked, o.Refused, o.WaiterBack, o.WaiterErr, o.Errors)
 		if o.LeakDump != "" && i == 0 {
 			fmt.Println(o.LeakDump)
 		}
